@@ -2,10 +2,10 @@
 package c03
 
 import (
-	"os"
 	"bytes"
 	"container/list"
 	"fmt"
+	"os"
 	"reflect"
 	"sort"
 	"strings"
@@ -390,18 +390,18 @@ func containerChecks(sp *gpack.Spec, p, q pack.Pack) error {
 			return fmt.Errorf("composite: %d inner packs, decoded %d", len(aux.Inner), f.Len())
 		}
 	case *pack.StatSqlPack:
-		if int(qq.RecordCount) != len(aux.Records) {
-			return fmt.Errorf("RecordCount=%d, %d records put in", qq.RecordCount, len(aux.Records))
+		if int(qq.RecordCount) != wantCount(aux) {
+			return fmt.Errorf("RecordCount=%d, the pack was given RecordCount %d (%d records put in)", qq.RecordCount, wantCount(aux), len(aux.Records))
 		}
 		return recordsEqual(aux.Records, listToSlice(qq.GetRecords()), nil)
 	case *pack.StatHttpcPack:
-		if int(qq.RecordCount) != len(aux.Records) {
-			return fmt.Errorf("RecordCount=%d, %d records put in", qq.RecordCount, len(aux.Records))
+		if int(qq.RecordCount) != wantCount(aux) {
+			return fmt.Errorf("RecordCount=%d, the pack was given RecordCount %d (%d records put in)", qq.RecordCount, wantCount(aux), len(aux.Records))
 		}
 		return recordsEqual(aux.Records, listToSlice(qq.GetRecords()), nil)
 	case *pack.StatErrorPack:
-		if int(qq.RecordCount) != len(aux.Records) {
-			return fmt.Errorf("RecordCount=%d, %d records put in", qq.RecordCount, len(aux.Records))
+		if int(qq.RecordCount) != wantCount(aux) {
+			return fmt.Errorf("RecordCount=%d, the pack was given RecordCount %d (%d records put in)", qq.RecordCount, wantCount(aux), len(aux.Records))
 		}
 		var got []interface{}
 		for _, r := range qq.GetRecords() {
@@ -409,8 +409,8 @@ func containerChecks(sp *gpack.Spec, p, q pack.Pack) error {
 		}
 		return recordsEqual(aux.Records, got, nil)
 	case *pack.SMDownCheckPack:
-		if int(qq.RecordCount) != len(aux.Records) {
-			return fmt.Errorf("RecordCount=%d, %d records put in", qq.RecordCount, len(aux.Records))
+		if int(qq.RecordCount) != wantCount(aux) {
+			return fmt.Errorf("RecordCount=%d, the pack was given RecordCount %d (%d records put in)", qq.RecordCount, wantCount(aux), len(aux.Records))
 		}
 		var got []interface{}
 		for _, r := range qq.GetRecords() {
@@ -418,8 +418,8 @@ func containerChecks(sp *gpack.Spec, p, q pack.Pack) error {
 		}
 		return recordsEqual(aux.Records, got, nil)
 	case *pack.StatServicePack:
-		if qq.RecordCount != len(aux.Records) {
-			return fmt.Errorf("RecordCount=%d, %d records put in", qq.RecordCount, len(aux.Records))
+		if qq.RecordCount != wantCount(aux) {
+			return fmt.Errorf("RecordCount=%d, the pack was given RecordCount %d (%d records put in)", qq.RecordCount, wantCount(aux), len(aux.Records))
 		}
 		in := wio.NewDataInputX(qq.Records)
 		n := int(in.ReadShort()) & 0xffff // the record counter is an unsigned 16-bit field
@@ -432,13 +432,13 @@ func containerChecks(sp *gpack.Spec, p, q pack.Pack) error {
 		}
 		return recordsEqual(aux.Records, got, nil)
 	case *pack.StatTransactionPack:
-		if qq.RecordCount != len(aux.Records) {
-			return fmt.Errorf("RecordCount=%d, %d records put in", qq.RecordCount, len(aux.Records))
+		if qq.RecordCount != wantCount(aux) {
+			return fmt.Errorf("RecordCount=%d, the pack was given RecordCount %d (%d records put in)", qq.RecordCount, wantCount(aux), len(aux.Records))
 		}
 		return recordsEqual(aux.Records, listToSlice(qq.GetRecords()), recIgnore(aux.Version))
 	case *pack.StatTransactionPack1:
-		if qq.RecordCount != len(aux.Records) {
-			return fmt.Errorf("RecordCount=%d, %d records put in", qq.RecordCount, len(aux.Records))
+		if qq.RecordCount != wantCount(aux) {
+			return fmt.Errorf("RecordCount=%d, the pack was given RecordCount %d (%d records put in)", qq.RecordCount, wantCount(aux), len(aux.Records))
 		}
 		return recordsEqual(aux.Records, listToSlice(qq.GetRecords()), recIgnore(aux.Version))
 	}
@@ -672,4 +672,13 @@ func TestKnownFindings(t *testing.T) {
 		}
 		return false, "re-encoding is byte-identical now"
 	})
+}
+
+// wantCount is the RecordCount a decoded record-list pack must carry: the number of records, unless the builder gave the
+// field another value (gpack.AuxInfo.Count).
+func wantCount(aux *gpack.AuxInfo) int {
+	if aux.CountSet {
+		return aux.Count
+	}
+	return len(aux.Records)
 }
